@@ -14,28 +14,208 @@ import c04_gen as G
 PROP = "C04"
 
 
-def braceless(prog):
-    """source text in which every one-command body is written without braces
-    (`if (c) say "x"; else if (d) say "y"; else say "z";`) — same lowering expected"""
+def braceless(prog, mask=None):
+    """source text in which one-command bodies are written without braces
+    (`if (c) say "x"; else if (d) say "y"; else say "z";`) — same lowering expected.
+    mask = set of branch positions written brace-less (the else is position n); None = all of them."""
     def stmt(s, ind):
         pad = "    " * ind
         if s[0] != "if":
             return G.stmt_src(s, ind)
         out = []
+        n = len(s[1])
         for i, (c, body) in enumerate(s[1]):
             kw = "if" if i == 0 else "else if"
-            if len(body) == 1 and body[0][0] in ("say", "set", "add", "sub"):
+            if len(body) == 1 and body[0][0] in ("say", "set", "add", "sub") and (mask is None or i in mask):
                 out.append(f"{pad}{kw} ({G.cond_src(c)}) {G.stmt_src(body[0], 0)}")
             else:
                 out.append(f"{pad}{kw} ({G.cond_src(c)}) {{\n" + "\n".join(stmt(x, ind + 1) for x in body) + f"\n{pad}}}")
         if s[2] is not None:
             e = s[2]
-            if len(e) == 1 and e[0][0] in ("say", "set", "add", "sub"):
+            if len(e) == 1 and e[0][0] in ("say", "set", "add", "sub") and (mask is None or n in mask):
                 out.append(f"{pad}else {G.stmt_src(e[0], 0)}")
             else:
                 out.append(f"{pad}else {{\n" + "\n".join(stmt(x, ind + 1) for x in e) + f"\n{pad}}}")
         return "\n".join(out)
     return "function f() {\n" + "\n".join(stmt(s, 1) for s in prog) + "\n}\n"
+
+
+# ---- strengthening round 2 -------------------------------------------------------------------------------
+
+MOD_KINDS = ["one", "self0", "selfsub", "other1", "toggle"]        # bodies of a branch (most modify tested variables)
+MOD_ELSE = [None, "one", "prev1", "all1"]
+
+
+def mod_body(kind, i, used, nm):
+    """body of branch i (i = len(used): the else) that changes the variables the chain tests.
+    used[j] = variables tested by condition j (each condition is true iff one of them is 1)."""
+    mine = used[i] if i < len(used) else []
+    others = [v for j, u in enumerate(used) if j != i for v in u if v not in mine]
+    if kind == "one":
+        return [nm.say(f"M{i}_")]
+    if kind == "self0":                    # falsifies the first disjunct of the own test: the chain must not re-test it
+        return [("set", mine[0], 0)]
+    if kind == "selfsub":
+        return [("sub", mine[0], 1)]
+    if kind == "other1":                   # makes another branch's test true
+        return [("set", (others or mine)[0], 1)]
+    if kind == "toggle":                   # own test false, every other test true
+        return [("set", v, 0) for v in mine] + [("set", v, 1) for v in others] + [nm.say(f"M{i}_")]
+    if kind == "prev1":                    # else body: makes the first test true
+        return [("set", used[0][0], 1)]
+    if kind == "all1":
+        return [("set", v, 1) for u in used for v in u] + [nm.say(f"M{i}_")]
+    raise ValueError(kind)
+
+
+def modifying_items(rng, quick):
+    """(a) every chain of <= 2 branches whose bodies CHANGE the tested variables, with every brace style:
+    the single-statement forms are where a compiler may be tempted to skip the __if_else__ flag."""
+    items = []
+    for n in (1, 2):
+        for cks in itertools.product("ao", repeat=n):
+            used, conds = [], []
+            for i, k in enumerate(cks):
+                v, w = G.CVARS[2 * i], G.CVARS[2 * i + 1]
+                used.append([v] if k == "a" else [v, w])
+                conds.append(G.atomic_cond(v) if k == "a" else G.or_cond(v, w))
+            kinds = MOD_KINDS if n == 1 else ["one", "self0", "other1", "toggle"]
+            for bks in itertools.product(kinds, repeat=n):
+                for ek in MOD_ELSE:
+                    if n == 1 and ek is None and bks[0] in ("one",):
+                        continue
+                    nm = G.Names()
+                    brs = [(conds[i], mod_body(bks[i], i, used, nm)) for i in range(n)]
+                    els = None if ek is None else mod_body(ek, n, used, nm)
+                    p = [("if", brs, els), nm.say("after")]
+                    single = [i for i in range(n) if len(brs[i][1]) == 1] + ([n] if els is not None and len(els) == 1 else [])
+                    items.append(dict(prog=p, cert=0, stream="modifying-bodies"))
+                    if single:
+                        items.append(dict(prog=p, cert=0, stream="modifying-bodies-braceless", src=braceless(p)))
+                    if len(single) > 1:
+                        for pos_ in single:
+                            items.append(dict(prog=p, cert=0, stream="modifying-bodies-braceless",
+                                              src=braceless(p, mask={pos_})))
+    # three-branch chains: the modifying body in every position
+    for pos_ in range(4):
+        for k in ("self0", "other1", "toggle"):
+            for has_else in (True, False):
+                if pos_ == 3 and not has_else:
+                    continue
+                used = [["$a"], ["$b", "$c"], ["$d"]]
+                conds = [G.atomic_cond("$a"), G.or_cond("$b", "$c"), G.atomic_cond("$d")]
+                nm = G.Names()
+                kk = [("one" if j != pos_ else k) for j in range(3)]
+                brs = [(conds[j], mod_body(kk[j], j, used, nm)) for j in range(3)]
+                els = mod_body(("prev1" if k == "self0" else "all1") if pos_ == 3 else "one", 3, used, nm) if has_else else None
+                p = [("if", brs, els), nm.say("after")]
+                items.append(dict(prog=p, cert=1, stream="modifying-bodies"))
+                items.append(dict(prog=p, cert=1, stream="modifying-bodies-braceless", src=braceless(p)))
+    return items
+
+
+def shared_or_items(rng, quick):
+    """(b) chains (and sequences / nests) in which two NON-adjacent conditions contain an identically written
+    `||` part and a different `||` part stands between them: every condition numbers its helpers from
+    __logic__0 again, so nothing computed for one condition may be reused for another."""
+    a, b, c, d = (G.pos(v, i) for i, v in enumerate(["$a", "$b", "$c", "$d"]))
+    subs = {"A": G.OR(a, b), "B": G.OR(c, d), "C": G.OR(b, G.AND(d, a)), "N": G.NOT(G.AND(a, c)),
+            "R": G.OR(a, G.AND(b, G.OR(c, d)))}
+    patterns = ["ABA", "ABAB", "ABBA", "AABA", "ABCA", "ANA", "NAN", "ABAC", "RBR", "ARA"]
+    items = []
+    for pi, pat in enumerate(patterns):
+        for guard_first in (False, True):
+            seen = {}
+            conds = []
+            for ch in pat:
+                occ = seen.get(ch, 0)
+                seen[ch] = occ + 1
+                if pat.count(ch) > 1:
+                    g = G.A("$m", "==", occ) if occ < 2 else G.A("$m", ">=", 2)
+                    f = G.AND(g, subs[ch]) if guard_first else G.AND(subs[ch], g)
+                else:
+                    f = subs[ch]
+                conds.append([("f", f)])
+            for has_else in (True, False):
+                nm = G.Names()
+                brs = [(cd, [nm.say(f"S{j}_")] if j % 2 else [nm.say(f"S{j}_"), nm.say(f"S{j}_")]) for j, cd in enumerate(conds)]
+                p = [("if", brs, [nm.say("E")] if has_else else None), nm.say("after")]
+                items.append(dict(prog=p, cert=pi % 2, stream="shared-or-chain", cap=64, values={"$m": (0, 1, 2)}))
+            if guard_first:
+                continue
+            # the same conditions as separate statements (also with bodies that change the tested variables, so
+            # that an identically written condition has to be evaluated again), and nested in the first branch's body
+            nm = G.Names()
+            p = [("if", [(cd, [nm.say(f"Q{j}_")])], None) for j, cd in enumerate(conds)] + [nm.say("after")]
+            items.append(dict(prog=p, cert=0, stream="shared-or-sequence", cap=64, values={"$m": (0, 1, 2)}))
+            for variant in (0, 1):
+                nm = G.Names()
+                p = []
+                for j, cd in enumerate([[("f", subs[ch])] for ch in pat]):      # no $m guards here
+                    vs = G.f_vars(G.cond_formula(cd))
+                    body = [("set", v, variant) for v in vs] + ([nm.say(f"Q{j}_")] if (j + variant) % 2 else [])
+                    p.append(("if", [(cd, body)], None))
+                items.append(dict(prog=p + [nm.say("after")], cert=0, stream="shared-or-sequence-modifying", cap=64,
+                                  values={"$m": (0, 1, 2)}))
+            nm = G.Names()
+            inner = [("if", [(cd, [nm.say(f"I{j}_")])], None) for j, cd in enumerate(conds[1:-1])]
+            p = [("if", [(conds[0], inner + [("set", "$m", 1)]), (conds[-1], [nm.say("L")])], [nm.say("E")]), nm.say("after")]
+            items.append(dict(prog=p, cert=0, stream="shared-or-nested", cap=64, values={"$m": (0, 1, 2)}))
+            # a loop whose condition shares its || part with a chain in its body
+            nm = G.Names()
+            lv = nm.loopvar()
+            body = [("if", [(conds[1], [nm.say("W1_")]), (conds[-1], [nm.say("W2_")])], None), ("add", lv, 1)]
+            p = [("set", lv, 0), ("while", [("atom", (lv, "<", 2))] + conds[0], body), nm.say("after")]
+            items.append(dict(prog=p, cert=0, stream="shared-or-loop", cap=64, values={"$m": (0, 1, 2)}))
+    return items
+
+
+def rich_items(rng, quick):
+    """rich conditions (G.RICH) in every condition position of a chain; expected lowering from the C03 model"""
+    items = []
+    V = ["$a", "$b", "$c", "$d"]
+    for ki, kind in enumerate(G.RICH_KINDS):
+        def rc(sp=0, kind=kind):
+            return [("f", G.rich(kind, V, ki + sp))]
+        e1, g1 = G.atomic_cond("$e"), G.atomic_cond("$g")
+        nm = G.Names()
+        s1, s2 = (lambda t: [nm.say(t)]), (lambda t: [nm.say(t), nm.say(t)])
+        progs = [
+            ("single-inline", [("if", [(rc(), s1("T"))], None)]),
+            ("single-function", [("if", [(rc(1), s2("T"))], None)]),
+            ("if-else", [("if", [(rc(2), s1("T"))], s2("E"))]),
+            ("first-of-3", [("if", [(rc(), s2("T")), (e1, s1("U")), (g1, s1("V"))], s1("E"))]),
+            ("middle-of-3", [("if", [(e1, s1("U")), (rc(3), s1("T")), (g1, s2("V"))], None)]),
+            ("last-with-else", [("if", [(e1, s1("U")), (g1, s2("V")), (rc(4), s1("T"))], s1("E"))]),
+            ("last-no-else", [("if", [(e1, s2("U")), (rc(5), s1("T"))], None)]),
+            ("last-no-else-function", [("if", [(e1, s1("U")), (g1, s1("V")), (rc(6), s2("T"))], None)]),
+            # the body of the rich branch changes the tested variables
+            ("rich-then-toggle", [("if", [(rc(), [("set", v, 0) for v in V] + s1("T")), (rc(1), s1("U"))], s1("E"))]),
+        ]
+        for tag, p in progs:
+            items.append(dict(prog=p + [nm.say("after")], cert=ki % 2, stream="rich-" + tag, cap=64))
+        # every condition of the chain rich (different shapes over the same variables)
+        for has_else in (True, False):
+            nm2 = G.Names()
+            ks = [G.RICH_KINDS[(ki + j * 5) % len(G.RICH_KINDS)] for j in range(3)]
+            brs = [([("f", G.rich(k, V[j:] + V[:j], ki + j))], [nm2.say(f"R{j}_")] * (1 + j % 2)) for j, k in enumerate(ks)]
+            p = [("if", brs, [nm2.say("E")] if has_else else None), nm2.say("after")]
+            items.append(dict(prog=p, cert=ki % 2, stream="rich-all-conditions"))
+    # random formulas (depth <= 4) in random chains
+    for i in range(60 if quick else 600):
+        nm = G.Names()
+        n = rng.choice([1, 2, 2, 3, 3, 4])
+        vs = V if i % 3 else V + ["$e"]
+        brs = []
+        for j in range(n):
+            f = G.random_formula(rng, vs, rng.choice([2, 3, 3, 4]))
+            body = [nm.say(f"X{j}_")] + ([("set", rng.choice(vs), rng.choice([0, 1]))] if rng.random() < 0.4 else [])
+            if rng.random() < 0.3:
+                body = body[-1:]
+            brs.append(([("atom", f[1])] if f[0] == "A" else [("f", f)], body))
+        els = [nm.say("E")] if rng.random() < 0.5 else None
+        items.append(dict(prog=[("if", brs, els), nm.say("after")], cert=i % 2, stream="rich-random-chain"))
+    return items
 
 
 def gen_items(rng, tier):
@@ -100,6 +280,10 @@ def gen_items(rng, tier):
               [("if", [(c_a, [say]), (c_o, [])], None)], [("if", [(c_a, []), (c_o, [])], [say])],
               [("if", [(c_a, [say])], [])], [("if", [(c_o, []), (c_a, []), (c_a, [say, say])], None)]):
         items.append(dict(prog=p + [("say", "after")], cert=0, stream="empty-bodies"))
+    # (iv) strengthening round 2
+    items += rich_items(rng, quick)
+    items += modifying_items(rng, quick)
+    items += shared_or_items(rng, quick)
     return items
 
 
